@@ -806,6 +806,106 @@ def real_schedules(ctx):
         ctx.count("real:stopped-early")
 
 
+def free_run(shim, init, a, b):
+    """MODEL-FREE schedule on two real `test-lock` processes: P0 issues `a` of its calls, P1 issues `b` of its calls, then the
+    two take turns of up to 16 calls each until both have acquired or left.  Nobody is stepped past its acquisition, so a process that has
+    printed "Lock acquired" still holds.  Returns the observation (holders at the end = simultaneous holders)."""
+    with common.scratch() as ws:
+        make_ws(ws)
+        content = INITS[init][1] if init in INITS else None
+        if content is not None:
+            with open(os.path.join(ws, LOCK_REL), "wb") as fh:
+                c = content()
+                fh.write(c if isinstance(c, bytes) else c.encode())
+        procs = {f"P{i}": (["test-lock", "--delay", "0", "--no-auto-init"], {"FSSHIM_TIME": str(FAKE_T0)}) for i in range(2)}
+        steps = []
+        with shim.Scheduler(ws, procs, reads=True, timeout=8.0, shim_timeout_ms=60000) as s:
+            def advance(name):
+                while True:
+                    pend = s.pending_one(name)
+                    if pend is None:
+                        return None
+                    ev = shim.parse_line(pend)
+                    if ev is None:
+                        return None
+                    if relevant(ev):
+                        return ev
+                    s.step(name)
+
+            def stderr_of(name):
+                s.files[name][1].flush()
+                with open(s._f(name, "stderr"), "rb") as fh:
+                    return fh.read().decode("utf-8", "replace")
+
+            def acquired(i):
+                return "Lock acquired" in stderr_of(f"P{i}")
+
+            def go(i, limit):
+                name, k = f"P{i}", 0
+                while k < limit and not acquired(i):
+                    ev = advance(name)
+                    if ev is None:
+                        return
+                    s.step(name)
+                    steps.append(f"{i}:{ev.op}")
+                    k += 1
+                advance(name)
+            go(0, a); go(1, b)
+            for _ in range(4):          # a process waiting for the guard burns its turn on refused flock attempts: alternate
+                go(0, 16); go(1, 16)
+            holders = [i for i in range(2) if acquired(i)]
+            obs = {"a": a, "b": b, "holders_at_once": holders, "steps": steps,
+                   "outcome": {i: ("acquired" if acquired(i) else classify_stderr(stderr_of(f"P{i}"))) for i in range(2)},
+                   "sched_timeouts": [list(t) for t in getattr(s, "timeouts", [])]}
+            s.run_schedule([], then_free=True)
+        return obs
+
+
+def free_exploration(ctx):
+    """the search for a concrete failing schedule when the tie to the Lock model is broken (the translator cannot read
+    lock.rs any more, or the real call sequence no longer follows the model's): every split `P0 runs a calls, P1 runs b calls,
+    P0 finishes acquiring, P1 finishes acquiring` from every leftover kind and from `absent`, with NO model in the loop.
+    Oracle: two processes that both report "Lock acquired" before either has released."""
+    ok, why = shim_available()
+    if not ok:
+        return
+    from . import shim
+    from concurrent.futures import ThreadPoolExecutor
+    t0 = time.time()
+    jobs = [(init, a, b) for init in ("orphaned", "stale", "empty", "garbage", "absent") for a in range(0, 13) for b in range(0, 13)]
+    found = None
+
+    def run(job):
+        if found is not None or time.time() - t0 > 600:
+            return None
+        init, a, b = job
+        try:
+            return job, free_run(shim, init, a, b)
+        except Exception as ex:          # a lost process on a loaded machine: not an observation
+            return job, {"error": repr(ex), "holders_at_once": []}
+    with ThreadPoolExecutor(8) as ex:
+        for r in ex.map(run, jobs):
+            if r is None:
+                continue
+            (init, a, b), obs = r
+            ctx.count("free:" + init)
+            ctx.case(("free", init, a, b), nontrivial=True)
+            if len(obs.get("holders_at_once", [])) >= 2 and found is None:
+                # confirm once more (a scheduler hiccup must not be reported)
+                again = free_run(shim, init, a, b)
+                if len(again.get("holders_at_once", [])) >= 2:
+                    found = (init, a, b, again)
+    if found:
+        init, a, b, obs = found
+        ctx.violation("schedule", {"scenario": "free-schedule", "init": init, "p0_calls_first": a, "p1_calls_then": b,
+                                   "then": "P0 until acquired, P1 until acquired"},
+                      expected="at most one process reports 'Lock acquired' before the other has released",
+                      observed=obs, note="model-free exploration of two real test-lock processes under the fsshim scheduler "
+                                         "(run because the tie to the Lock model is broken): two simultaneous holders")
+    else:
+        ctx.notes.append(f"free exploration: {len(jobs)} two-process splits x 5 initial lock files, no double holder found")
+
+
 def scheduled_stage(ctx, one, model_enum):
     # all interleavings of two acquires from `absent` (the theorem says: never two holders) — first, because this
     # is where a broken O_EXCL / reordered acquire shows up as a concrete failing schedule
@@ -1108,6 +1208,8 @@ def run(ctx):
     # (d) scheduled real processes ---------------------------------------------------------------------
     real_schedules(ctx)
     ctx.cov["findings_seen_in_process"] = sorted(seen_slugs)
+    if ctx.broken and not ctx.violations:
+        free_exploration(ctx)
 
 
 def replay(ctx, path):
